@@ -28,6 +28,8 @@ _ONLY = [R + "_read_definitions", R + "read_definitions"]
 XR.register_model(REG, RDF + ".read", "pydsdl._spec_reader_model.read", _ONLY)
 XR.register_model(REG, DSDLFILE + ".composite_type", "pydsdl._spec_reader_model.composite_type", _ONLY)
 XR.register_model(REG, "pydsdl._dsdl.file_sort", "pydsdl._spec_reader_model.file_sort", _ONLY)
+for _c in (RDF, DSDLFILE):
+    XR.register_model(REG, _c + ".file_path", "pydsdl._spec_reader_model.file_path", _ONLY)
 
 for _q in (RDF, DSDLFILE, VISITOR, ERROR):
     if _q not in REG.classes:
@@ -46,17 +48,6 @@ def FP(d):
         return speclib.CTX.engine.uf("ghost!file_path", RefSort, z3.StringSort())(d.ref if isinstance(d, Obj) else d)
     return d.file_path
 
-
-for _q in (RDF + ".file_path", DSDLFILE + ".file_path"):
-    if _q not in REG.contracts:
-        @contract(_q, props=P_ALL)
-        class _FilePathIface:
-            returns = Str
-            verify = False
-            assumed = "interface: the file path of a definition is a fixed attribute of the definition object"
-
-            def post(s):
-                return {"file-path": EQ(s.result, FP(s.self))}
 
 inline_ok(ERROR + ".set_error_location_if_unknown", why="two conditional assignments; verified on its own under C17/C13")
 
@@ -208,6 +199,41 @@ def DONE(P, D, T, level, t, h=None):
                   z3.If(level == 0, z3.Select(D.term, c), z3.Or(z3.Select(D.term, c), z3.Select(T.term, c))))
 
 
+def MISSING(lookup, P):
+    """|{ paths of lookup definitions } \\ keys(file_pool)|: how many lookup definitions have not been pooled (read) yet"""
+    f = speclib.CTX.engine.uf("ghost!missing", lookup.arr.sort(), z3.IntSort(), P.has.sort(), z3.IntSort())
+    return f(lookup.arr, lookup.length, P.has)
+
+
+def LOOKUP_MEMBER(lookup, x):
+    j = z3.FreshConst(z3.IntSort(), "jl")
+    return z3.Exists([j], z3.And(0 <= j, j < lookup.length, z3.Select(lookup.arr, j) == x))
+
+
+def _missing_lemma(lookup, P_small, P_big):
+    """ASSUMED LEMMA (finite sets; Lean: Pydsdl/Reader.lean `missing_lt`): if the pool only grew and some lookup definition's
+    path was pooled in between, strictly fewer lookup paths are missing; and the count is never negative."""
+    p = z3.FreshConst(z3.StringSort(), "p")
+    j = z3.FreshConst(z3.IntSort(), "jw")
+    path = FP(z3.Select(lookup.arr, j))
+    grew = z3.ForAll([p], z3.Implies(z3.Select(P_small.has, p), z3.Select(P_big.has, p)), patterns=[z3.Select(P_small.has, p)])
+    witness = z3.Exists([j], z3.And(0 <= j, j < lookup.length, z3.Not(z3.Select(P_small.has, path)), z3.Select(P_big.has, path)))
+    return z3.And(MISSING(lookup, P_big) >= 0, MISSING(lookup, P_small) >= 0,
+                  z3.Implies(grew, MISSING(lookup, P_big) <= MISSING(lookup, P_small)),
+                  z3.Implies(z3.And(grew, witness), MISSING(lookup, P_big) < MISSING(lookup, P_small)))
+
+
+def _measure(s):
+    """Termination: (top level first, then) the number of lookup definitions not yet pooled."""
+    ctx = speclib.CTX
+    e = getattr(ctx, "reader_entry", None)
+    if e is not None and not e.P0.has.eq(s.file_pool.has):
+        ctx.assume(_missing_lemma(s.lookup_definitions, e.P0, s.file_pool))
+    else:
+        ctx.assume(MISSING(s.lookup_definitions, s.file_pool) >= 0)
+    return (z3.If(s.level == 0, z3.IntVal(1), z3.IntVal(0)), MISSING(s.lookup_definitions, s.file_pool))
+
+
 def ENTRY():
     return speclib.CTX.reader_entry
 
@@ -241,6 +267,7 @@ class _ReadDefinitionsRec:
     havoc_heap = True
     # only pydsdl Errors leave (every other class is a `noraise#...` obligation), with the path rule
     raises_if = {"Error": path_rule}
+    decreases = staticmethod(_measure)
 
     def pre(s):
         ctx = speclib.CTX
@@ -256,6 +283,12 @@ class _ReadDefinitionsRec:
                 # C19: below the top level only definitions handed to on_definition are read
                 "deeper-targets-were-resolved": z3.Implies(s.level >= 1, z3.ForAll([i], z3.Implies(
                     z3.And(0 <= i, i < s.target_definitions.length), RESOLVED(z3.Select(s.target_definitions.arr, i))),
+                    patterns=[z3.Select(s.target_definitions.arr, i)])),
+                # termination: below the top level the targets are lookup definitions that have not been pooled yet
+                "deeper-targets-are-unread-lookup-definitions": z3.Implies(s.level >= 1, z3.ForAll([i], z3.Implies(
+                    z3.And(0 <= i, i < s.target_definitions.length),
+                    z3.And(LOOKUP_MEMBER(s.lookup_definitions, z3.Select(s.target_definitions.arr, i)),
+                           z3.Not(z3.Select(s.file_pool.has, FP(z3.Select(s.target_definitions.arr, i)))))),
                     patterns=[z3.Select(s.target_definitions.arr, i)]))}
 
     def post(s):
@@ -275,6 +308,51 @@ _inv_targets.kinds = {"direct": ObjSetOf(COMPOSITE), "transitive": ObjSetOf(COMP
                       "_pending_definitions": ObjSetOf(RDF)}
 _inv_targets.in_place = True
 _inv_targets.havoc_ghost_heap = True
+
+
+# ------------------------------------------------------------------------------------------------ read_definitions
+def _known_path_only(s):
+    return _exc_path(s.exc)[0]
+
+
+def IN_LIST(seq, x):
+    k = z3.FreshConst(z3.IntSort(), "k")
+    return z3.Exists([k], z3.And(0 <= k, k < seq.length, z3.Select(seq.arr, k) == x))
+
+
+@contract(R + "read_definitions", props=P_ALL)
+class _ReadDefinitionsTop:
+    """C10: `direct` and `transitive` are disjoint duplicate-free lists (file_sort order: C10 contract of file_sort); every
+    requested target has been read and its composite is in `direct`."""
+    params = dict(target_definitions=SeqOf(ObjOf(RDF)), lookup_definitions=SeqOf(ObjOf(RDF)),
+                  allow_unregulated_fixed_port_id=Bool, strict=Bool)
+    instances = lambda: [{"print_output_handler": None}, {"print_output_handler": RecorderK("print_output_handler")}]
+    raises_if = {"Error": _known_path_only}
+
+    def pre(s):
+        return {"paths-are-truthy": _all_paths_truthy()}
+
+    def post(s):
+        d, t = s.result.direct, s.result.transitive
+        i, j = z3.FreshConst(z3.IntSort(), "i"), z3.FreshConst(z3.IntSort(), "j")
+        tg = s.target_definitions
+        w = z3.FreshConst(RefSort, "w")
+        wd = Obj(speclib.CTX.engine.repo.cls(RDF), False, w, None, speclib.CTX)
+        ct = CT(wd)
+        return {
+            "direct-transitive-disjoint": z3.ForAll([i, j], z3.Implies(
+                z3.And(0 <= i, i < d.length, 0 <= j, j < t.length), z3.Select(d.arr, i) != z3.Select(t.arr, j)),
+                patterns=[z3.MultiPattern(z3.Select(d.arr, i), z3.Select(t.arr, j))]),
+            "direct-without-duplicates": z3.ForAll([i, j], z3.Implies(
+                z3.And(0 <= i, i < j, j < d.length), z3.Select(d.arr, i) != z3.Select(d.arr, j)),
+                patterns=[z3.MultiPattern(z3.Select(d.arr, i), z3.Select(d.arr, j))]),
+            "transitive-without-duplicates": z3.ForAll([i, j], z3.Implies(
+                z3.And(0 <= i, i < j, j < t.length), z3.Select(t.arr, i) != z3.Select(t.arr, j)),
+                patterns=[z3.MultiPattern(z3.Select(t.arr, i), z3.Select(t.arr, j))]),
+            "every-target-is-read-and-direct": z3.ForAll([i], z3.Implies(z3.And(0 <= i, i < tg.length), z3.Exists([w], z3.And(
+                FP(w) == FP(z3.Select(tg.arr, i)), z3.Not(ct.is_none), IN_LIST(d, ct.val.ref)))),
+                patterns=[z3.Select(tg.arr, i)]),
+        }
 
 
 LEVEL = "proof"
